@@ -596,9 +596,95 @@ fn termination_family(seed: u64, tier: Tier) -> (Vec<(String, String)>, u64, Val
 
 pub struct RlScenario;
 
+/// (d) the remedian estimator (Rousseeuw / Bassett): observation histories against an independently written
+/// median-of-medians reference. Full estimator (exactly base^exponent observations): the estimate is the median of the last
+/// level's medians; before that: the estimate is one of the values currently held and lies within the hull of what was
+/// observed; an estimate exists iff something was observed; observations are accepted until the estimator is full, refused
+/// afterwards, and the estimate of a full estimator never changes.
+fn remedian_family(seed: u64, tier: Tier) -> (Vec<(String, String)>, u64, Value) {
+    use rosomaxa::algorithms::math::Remedian;
+    let mut p = Prng::derive(seed, "remedian");
+    let base = *p.pick(&[1usize, 3, 3, 5, 5, 7, 11]);
+    let exponent = match tier {
+        Tier::Quick => p.usize(1, if base >= 7 { 2 } else { 3 }),
+        Tier::Thorough => p.usize(1, if base >= 11 { 3 } else { 4 }),
+    };
+    let capacity = base.pow(exponent as u32);
+    let n = if p.chance(0.6) { capacity + p.usize(0, 5) } else { p.usize(0, capacity) };
+    let kind = p.below(4);
+    let mut estimator: Remedian<u64, fn(&u64, &u64) -> Ordering> = Remedian::new(base, exponent, |a: &u64, b: &u64| a.cmp(b));
+    // reference: levels of pending values, a full level is replaced by its median one level up
+    let mut levels: Vec<Vec<u64>> = vec![vec![]; exponent];
+    let mut full: Option<u64> = None;
+    let (mut lo, mut hi) = (u64::MAX, 0u64);
+    let mut issues = vec![];
+    let mut steps = 0u64;
+    let mut last_full_estimate: Option<u64> = None;
+    for i in 0..n {
+        let value = match kind {
+            0 => p.below(1000),
+            1 => i as u64,
+            2 => (n - i) as u64,
+            _ => if p.chance(0.5) { 7 } else { p.below(5) * 1000 },
+        };
+        let accepted = estimator.add_observation(value);
+        steps += 1;
+        let want_accepted = full.is_none();
+        if accepted != want_accepted {
+            issues.push(("remedian-accept".into(), format!("observation {i} of {n} (base {base}, exponent {exponent}): add_observation returned {accepted}, expected {want_accepted}")));
+        }
+        if want_accepted {
+            lo = lo.min(value);
+            hi = hi.max(value);
+            levels[0].push(value);
+            for l in 0..exponent {
+                if levels[l].len() == base {
+                    let mut sorted = levels[l].clone();
+                    sorted.sort();
+                    let median = sorted[base / 2];
+                    if l + 1 < exponent {
+                        levels[l].clear();
+                        levels[l + 1].push(median);
+                    } else {
+                        full = Some(median);
+                    }
+                } else {
+                    break;
+                }
+            }
+        }
+        let got = estimator.approx_median();
+        match (got, full) {
+            (None, _) => issues.push(("remedian-none".into(), format!("no estimate after {} observations (base {base}, exponent {exponent})", i + 1))),
+            (Some(g), Some(want)) => {
+                if g != want {
+                    issues.push(("remedian-full".into(), format!("full estimator (base {base}, exponent {exponent}, {} observations): estimate {g}, the median of the last level's medians is {want}", i + 1)));
+                }
+                if last_full_estimate.is_some_and(|l| l != g) {
+                    issues.push(("remedian-full".into(), format!("the estimate of a full estimator changed to {g}")));
+                }
+                last_full_estimate = Some(g);
+            }
+            (Some(g), None) => {
+                if g < lo || g > hi || !levels.iter().any(|l| l.contains(&g)) {
+                    issues.push(("remedian-partial".into(), format!("after {} observations (base {base}, exponent {exponent}): estimate {g} is not one of the held values {:?} / outside of [{lo}, {hi}]", i + 1, levels)));
+                }
+            }
+        }
+        if issues.len() > 4 {
+            break;
+        }
+    }
+    if n == 0 && estimator.approx_median().is_some() {
+        issues.push(("remedian-none".into(), "an estimate without any observation".into()));
+    }
+    (issues, steps.max(1), json!({ "family": "remedian", "base": base, "exponent": exponent, "observations": n, "reached_full": full.is_some() }))
+}
+
 fn run(seed: u64, tier: Tier) -> CaseRecord {
     let mut spec = RunSpec::from_seed(seed);
-    let family = seed % 4;
+    // (one case in sixteen: the median estimator behind the duration medians of the selector)
+    let family = if seed % 16 == 5 { 4 } else { seed % 4 };
     if family == 1 || family == 3 {
         // operator durations of 0 (frozen), tiny, or seconds
         spec.clock_policy = [ClockPolicy::Frozen, ClockPolicy::Fast, ClockPolicy::Slow, ClockPolicy::Bursty][(seed / 3 % 4) as usize];
@@ -610,6 +696,7 @@ fn run(seed: u64, tier: Tier) -> CaseRecord {
             0 => slot_family(seed, tier),
             1 => dynamic_family(seed, tier),
             3 => hierarchical_family(seed, tier),
+            4 => remedian_family(seed, tier),
             _ => termination_family(seed, tier),
         };
         sys::monitor(|| (issues.clone(), n, sample.clone()))
@@ -618,7 +705,7 @@ fn run(seed: u64, tier: Tier) -> CaseRecord {
     if out.arena_live != 0 {
         rec.taint = true;
     }
-    let fam = ["slot_machine", "dynamic_selective", "terminations", "dynamic_selective_hierarchical"][family as usize];
+    let fam = ["slot_machine", "dynamic_selective", "terminations", "dynamic_selective_hierarchical", "remedian"][family as usize];
     rec.count(&format!("family.{fam}"), 1);
     rec.count(&format!("clock.policy.{}", spec.clock_policy.name()), 1);
     match out.result {
@@ -663,12 +750,12 @@ impl Scenario for RlScenario {
     fn meta(&self) -> ScenarioMeta {
         ScenarioMeta {
             level: "exploration",
-            rule: "three case families by seed: (a) SlotMachine update histories of 1..N rewards (0, denormals, constant runs, alternating extremes up to 1e6 x the documented range) checked after every update for finite positive shape/rate, non-negative variance, mean within the hull of seen rewards and the prior, agreement with the closed-form normal-gamma update, legal sampler arguments (recording sampler) and a finite sample from the real sampler; (b) the real DynamicSelective on the scalar example problem for 10..N generations under frozen / fast / slow / bursty simulated clocks (durations and medians 0 or seconds) judged through its own telemetry: rewards finite and within [0, 18], operator names configured, slot parameters valid; (c) MaxTime, MaxGeneration, TargetProximity and MinVariation(sample|period) on a harness context with the real Elitism population over seeded fitness / generation / simulated-clock histories: estimates within [0,1], MaxGeneration fires iff generation >= limit, MinVariation(sample n) fires iff the coefficient of variation of every objective over exactly the last n best-fitness vectors is <= threshold (and the phase rule), MinVariation(period) judged on the window it retains. evaluations = updates / generations / steps; distinct = distinct (seed, event-log hash)".into(),
+            rule: "case families by seed: (d, one case in sixteen) the remedian estimator against an independent median-of-medians reference (full estimator: exact; before: the estimate is a held value within the hull; acceptance until full, refusal afterwards); (a) SlotMachine update histories of 1..N rewards (0, denormals, constant runs, alternating extremes up to 1e6 x the documented range) checked after every update for finite positive shape/rate, non-negative variance, mean within the hull of seen rewards and the prior, agreement with the closed-form normal-gamma update, legal sampler arguments (recording sampler) and a finite sample from the real sampler; (b) the real DynamicSelective on the scalar example problem for 10..N generations under frozen / fast / slow / bursty simulated clocks (durations and medians 0 or seconds) judged through its own telemetry: rewards finite and within [0, 18], operator names configured, slot parameters valid; (c) MaxTime, MaxGeneration, TargetProximity and MinVariation(sample|period) on a harness context with the real Elitism population over seeded fitness / generation / simulated-clock histories: estimates within [0,1], MaxGeneration fires iff generation >= limit, MinVariation(sample n) fires iff the coefficient of variation of every objective over exactly the last n best-fitness vectors is <= threshold (and the phase rule), MinVariation(period) judged on the window it retains. evaluations = updates / generations / steps; distinct = distinct (seed, event-log hash)".into(),
             assumptions: vec![
                 "fitness histories for the variation oracle are non-negative (cost-like); steps whose reference CV is not finite or within 1e-9 of the threshold are skipped and counted".into(),
                 "the simulated clock is the only clock; logging never draws or reads time".into(),
             ],
-            components_real: vec!["rosomaxa::algorithms::rl::SlotMachine", "rosomaxa::hyper::DynamicSelective (via rosomaxa::example::Solver)", "rosomaxa::termination::*", "rosomaxa::utils::DefaultDistributionSampler", "rosomaxa::population::Elitism"],
+            components_real: vec!["rosomaxa::algorithms::math::Remedian", "rosomaxa::algorithms::rl::SlotMachine", "rosomaxa::hyper::DynamicSelective (via rosomaxa::example::Solver)", "rosomaxa::termination::*", "rosomaxa::utils::DefaultDistributionSampler", "rosomaxa::population::Elitism"],
             components_stub: vec!["heuristic context / individual / objective (harness)", "clock", "worker RNG streams (H2)", "rayon (H1)"],
         }
     }
